@@ -1,5 +1,5 @@
 (* C02 - no lost wake-up (definitions and tactics; the preservation lemmas are in ParkInv4a..g.v, one group of actions each, so that they build in parallel): whenever the coroutine sits in the wait_co slot and a reason to wake it exists
-   (token set / cancelled and registered / armed deadline passed) some actor is at a control point from
+   (token set / cancel bit set / armed deadline passed) some actor is at a control point from
    which it takes the coroutine out of the slot. *)
 From Coq Require Import List ZArith Bool Arith Lia.
 Import ListNotations.
@@ -13,29 +13,22 @@ Definition cn_tco (s : st) : Prop := exists i, cn s i = CTakeCo.
 Record Inv4 (s : st) : Prop := {
   w_tok : slot s = true -> pstate s = true ->
           match kp s with KChk | KStake | KSload | KFtake => True | _ => un_taking s end;
-  w_can : slot s = true -> cbit s = true -> tainted s = false ->
+  w_can : slot s = true -> cbit s = true ->
           match kp s with
-          | KChk | KStake | KSload | KFtake | KSetco | KC3 => True
-          | KCchk | KC1 | KC2 => cco s = CThis \/ cn_taking s
+          | KChk | KStake | KSload | KFtake | KCchk | KC3 => True
           | _ => cn_taking s \/ (cco s = CThis /\ cn_tco s) end;
-  w_reg : slot s = true -> tainted s = false ->
-          match kp s with
-          | KCchk | KC1 | KC2 | KGoff | KIdle => cco s = CThis \/ cn_taking s
-          | _ => True end;
+  w_reg : slot s = true -> cbit s = false -> cco s = CThis;
+  w_prereg : kp s = KStore -> cbit s = false -> cco s = CThis;
   w_kp : slot s = true ->
          match kp s with
-         | KChk | KStake | KSload | KFtake | KSetco | KCchk | KC1 | KC2 | KC3 | KC3s | KGoff | KIdle => True
+         | KChk | KStake | KSload | KFtake | KCchk | KC3 | KGoff | KIdle => True
          | _ => False end;
-  w_stale : match kp s with
-            | KCchk | KC1 | KC2 => cco s = CStale -> tainted s = true
-            | KC3s => tainted s = true
-            | _ => True end;
   w_dead : slot s = true -> forall i, hnd s = Some i ->
            (tm s i = TmArmed \/ tm s i = TmFired) \/ kp s = KStake \/
            (kp s = KChk /\ exists t, kdl s = Some t /\ t <= now s);
   w_pre : up s = USusp ->
           match kp s with
-          | KHandle | KGon | KStore =>
+          | KHandle | KGon | KReg | KStore =>
               (forall i, hnd s = Some i -> (tm s i = TmArmed \/ tm s i = TmFired) \/ exists t, kdl s = Some t /\ t <= now s) /\
               (kdur s <> None -> hnd s <> None)
           | _ => True end;
@@ -151,8 +144,9 @@ Ltac cl4 :=
 Ltac step4 Ipl H :=
   step_inv H; pre Ipl; constructor; try solve [cl4].
 Ltac intro4 :=
-  intros [Ipl Ihun Ihcn Ihtm Irun Isusp Iwk [Inn Ine] Ipre Icd] [Tn Tf Kt Kd Kl Kp Ka Hs He Hd Wd]
-         I3 [Wt Wc Wr Wk Ws Wdd Wp Wti Wh] H;
+  intros [Ipl Ihun Ihcn Ihtm Irun Isusp Iwk [Inn Ine] Ipre Icd ((Id1 & Id2 & Id3 & Id4) & Iok & Itn)] [Tn Tf Kt Kd Kl Kp Ka Hs He Hd Wd]
+         I3 [Wt Wc Wr Wpr Wk Wdd Wp Wti Wh] H;
+  pose proof (c_bit _ I3) as Cb;
   clear I3 Tn Kt Kl Ka Hd Wd.
 Ltac show4 := unfold canceled, armed_of in *; cbn; rw; cbn; intros;
   try match goal with E : kp _ = ?k |- _ => idtac "KP" k end;
